@@ -1079,6 +1079,16 @@ func (in *Interp) footerOp(o *Op) (out W) {
 	if want != got {
 		in.fail("C11", "footer CRC %08x does not cover the preceding %d bytes (crc32 = %08x)", got, len(b)-4, want)
 	}
+	// the file this segment was itself loaded from (the merger's own output, or an earlier persist):
+	// it must end in the CRC-32 of its other bytes, and persisting the loaded segment reproduces it
+	if orig := in.Bytes[o.Slot]; len(orig) >= 44 {
+		if w, g := crc32.ChecksumIEEE(orig[:len(orig)-4]), binary.BigEndian.Uint32(orig[len(orig)-4:]); w != g {
+			in.fail("C11", "the file the segment in slot %d was loaded from ends in CRC %08x, the CRC-32 of its preceding %d bytes is %08x", o.Slot, g, len(orig)-4, w)
+		}
+		if !bytes.Equal(orig, b) {
+			in.fail("C11", "persisting the loaded segment in slot %d does not reproduce the file it was loaded from (%d vs %d bytes, first difference at %d)", o.Slot, len(b), len(orig), firstDiffBytes(b, orig))
+		}
+	}
 	b2, err := in.Persist(loaded)
 	if err != nil || !bytes.Equal(b, b2) {
 		in.fail("C11", "persisting the loaded segment again does not reproduce the file (err=%v, %d vs %d bytes)", err, len(b), len(b2))
